@@ -26,7 +26,7 @@ ASSUMPTIONS = [
     "steps sharing one loop iteration with an explicit round: the membership / value at issue time or at send time (one iteration later) are both accepted",
     "the schedule of cyclic rounds is not fixed by the statement: every cyclic round must be complete and go to exactly the current subscribers, and a subscriber that stays longer than two intervals must see a round",
 ]
-BUDGET = {"quick": {"examples": 8000, "shrink": 300}, "thorough": {"examples": 480000, "shrink": 2000}}
+BUDGET = {"quick": {"examples": 8000, "shrink": 300}, "thorough": {"examples": 300000, "shrink": 2000}}
 INTERVAL = 0.5
 SID, MAJOR = 0xB0A7, 4
 
